@@ -1333,13 +1333,22 @@ func c14StaleRewrite(c *Ctx, cs c14Case) {
 	}
 	e.tr("the parked SetWithTTL returned %v while the sweep is held", ok)
 	s0 := e.sw.sweepCount()
+	var f0 int64
+	e.sw.waitFor(func() bool { f0 = e.sw.frontier; return true }, time.Second) // frontier of the held sweep (read under the lock)
 	e.sw.releaseHold()
 	if !ok {
 		r.Inconc(1)
 		return
 	}
-	// two more complete sweeps: the first one may already have been under way when the entry was filed
-	if !e.sw.waitFor(func() bool { return e.sw.sweeps >= s0+3 }, 8*time.Second) {
+	// Bounded progress as in the other directed cases: the entry may legitimately be filed under the next bucket to
+	// be cleaned (frontier of the running sweep + 1). It must be gone once a sweep whose frontier covers that bucket
+	// has completed. (Counting sweeps is not enough: two ticks can fall into the same bucket.)
+	if !e.sw.waitFor(func() bool { return e.sw.frontier >= f0+1 }, 8*time.Second) {
+		r.Inconc(1)
+		return
+	}
+	s1 := e.sw.sweepCount()
+	if !e.sw.waitFor(func() bool { return e.sw.sweeps > s1 }, 4*time.Second) {
 		r.Inconc(1)
 		return
 	}
@@ -1363,7 +1372,7 @@ func c14StaleRewrite(c *Ctx, cs c14Case) {
 				idx = fmt.Sprint(b)
 			}
 		}
-		e.fail("stale-rewrite-not-reclaimed/"+cs.Position, fmt.Sprintf("a re-write with ttl 10 ms was delayed inside KeyToHash and reached the store while the sweep was %s; its expiration passed seconds ago and %d sweeps have completed since, but OnEvict=%d OnExit=%d stored=%v still-accounted=%v (indexed in bucket %s, sweep frontier %d)", cs.Position, e.sw.sweepCount()-s0, ev, ex, stored, acc, idx, snap.LastCleaned))
+		e.fail("stale-rewrite-not-reclaimed/"+cs.Position, fmt.Sprintf("a re-write with ttl 10 ms was delayed inside KeyToHash and reached the store while the sweep was %s; its expiration passed seconds ago and %d sweeps have completed since, the last with a frontier beyond the next bucket to be cleaned at that time, but OnEvict=%d OnExit=%d stored=%v still-accounted=%v (indexed in bucket %s, sweep frontier %d)", cs.Position, e.sw.sweepCount()-s0, ev, ex, stored, acc, idx, snap.LastCleaned))
 		return
 	}
 	r.DistinctKey("stale-rewrite/%s/reclaimed", cs.Position)
